@@ -937,7 +937,9 @@ func (vm *VM) throw(err *RuntimeError, noTrace bool) error {
 
 	for index >= 0 {
 		f := &(vm.frames[index])
-		err.addTrace(getFrameSourcePos(f))
+		// every active frame has its own entry, recursive calls through one
+		// call site included
+		err.Trace = append(err.Trace, getFrameSourcePos(f))
 		if f.errHandlers.usableHandler() != nil {
 			frame = f
 			break
